@@ -9,7 +9,7 @@ use debruijn::msp::{MspIntervalP, Scanner};
 use debruijn::{DnaBytes, DnaSlice};
 use std::panic::AssertUnwindSafe;
 
-pub const NKINDS: usize = 6;
+pub const NKINDS: usize = 9;
 
 fn mix(mut x: u64) -> u64 {
     x ^= x >> 33;
@@ -31,7 +31,7 @@ fn bij(r: u64, p: usize, salt: u64) -> u64 {
 }
 
 /// score functions: 0 lexicographic rank, 1 AT count, 2 constant, 3 few-valued random table,
-/// 4 random permutation, 5 permutation with min(x, rc x)
+/// 4 random permutation, 5 permutation with min(x, rc x), 6 64-bit hash, 7 high bits decide, 8 usize::MAX - rank
 pub fn score_fn<P: KS>(kind: usize, salt: u64) -> Box<dyn Fn(&P) -> usize> {
     let p = P::k();
     match kind {
@@ -43,9 +43,14 @@ pub fn score_fn<P: KS>(kind: usize, salt: u64) -> Box<dyn Fn(&P) -> usize> {
             Box::new(move |x: &P| (mix(x.to_u64() ^ salt) % nv) as usize)
         }
         4 => Box::new(move |x: &P| bij(x.to_u64(), p, salt) as usize),
-        _ => Box::new(move |x: &P| {
+        5 => Box::new(move |x: &P| {
             std::cmp::min(bij(x.to_u64(), p, salt), bij(x.rc().to_u64(), p, salt)) as usize
         }),
+        // scores that use the whole width of usize (the scanner takes ANY Fn(&P) -> usize): a 64-bit hash,
+        // a score whose deciding bits sit above bit 32 with ties below, and a descending order from usize::MAX
+        6 => Box::new(move |x: &P| mix(x.to_u64() ^ salt) as usize),
+        7 => Box::new(move |x: &P| (((x.at_count() as u64) << 40) | (mix(x.to_u64() ^ salt) & 3)) as usize),
+        _ => Box::new(move |x: &P| usize::MAX - (bij(x.to_u64(), p, salt) as usize)),
     }
 }
 
